@@ -41,10 +41,86 @@ def s1_fetch_versions(src, shape):
     src.check(used == [cap] or src.twin, f"the consumer did not use Fetch v{cap} against a broker whose highest version is {cap}", used=used)
 
 
+def s2_reset_to_latest(src):
+    """a consumer that starts at 'latest' while a transaction is open: read_committed starts at the last stable
+    offset, so once the transaction is decided it delivers exactly that transaction's records (if committed) and
+    what follows; read_uncommitted starts at the high watermark; markers never"""
+    import asyncio
+    import aiokafka.errors as E
+    from aiokafka import AIOKafkaConsumer
+    from aiokafka.structs import TopicPartition
+    from env import simkafka, vloop
+    from specs import refcodec as R
+    iso = src.choice("isolation", 2)
+    outcome = ["commit", "abort"][src.choice("open_transaction_ends_by", 2)]
+    how = ["auto_offset_reset_latest", "seek_to_end"][src.choice("position_from", 2)]
+    cluster = simkafka.Cluster(nodes=(0, 1), topics={"t": 1})
+    log = cluster.logs[("t", 0)]
+
+    def plain(o):
+        rec = dict(offset=o, timestamp=1000 + o, key=b"k%d" % o, value=b"v", headers=[])
+        log.prefill(R.encode_v2(o, [rec]), o, o, [(o, rec["key"], b"v", (), 1000 + o)])
+
+    plain(0)
+    recs = [dict(offset=o, timestamp=1000 + o, key=b"k%d" % o, value=b"v", headers=[]) for o in (1, 2)]
+    log.prefill(R.encode_v2(1, recs, transactional=True, producer_id=7, producer_epoch=0, base_sequence=0), 1, 2,
+                [(r["offset"], r["key"], b"v", (), r["timestamp"]) for r in recs], transactional=True, pid=7)
+    res = {"got": []}
+    tp = TopicPartition("t", 0)
+
+    async def main(loop):
+        with simkafka.installed(cluster):
+            c = AIOKafkaConsumer(bootstrap_servers="h0:9092", group_id=None, enable_auto_commit=False,
+                                 auto_offset_reset="latest" if how == "auto_offset_reset_latest" else "earliest",
+                                 isolation_level="read_committed" if iso else "read_uncommitted",
+                                 fetch_max_wait_ms=50, request_timeout_ms=1000, retry_backoff_ms=50)
+            await c.start()
+            c.assign([tp])
+            if how == "seek_to_end":
+                await c.seek_to_end(tp)
+            res["start"] = await asyncio.wait_for(c.position(tp), 5)
+            # the transaction is decided, one more record follows
+            raw = R.encode_v2(3, [dict(offset=3, timestamp=1003, **R.control_record(outcome == "commit"))], transactional=True, control=True,
+                              producer_id=7, producer_epoch=0)
+            log.prefill(raw, 3, 3, [(3, None, None, (), 0)], control=True, marker=outcome, transactional=True, pid=7)
+            plain(4)
+            t_end = loop.time() + 2.0
+            try:
+                while loop.time() < t_end:
+                    batch = await c.getmany(timeout_ms=100)
+                    for _, rs in batch.items():
+                        res["got"].extend(r.offset for r in rs)
+            except E.KafkaError as e:
+                res["exc"] = repr(e)
+            try:
+                await asyncio.wait_for(c.stop(), 10)
+            except (asyncio.TimeoutError, asyncio.CancelledError, Exception):  # noqa: BLE001
+                pass
+
+    try:
+        vloop.run(main, max_vtime=120)
+    except vloop.Deadlock as e:
+        res["deadlock"] = str(e)
+    want_start = 1 if iso else 3
+    want = ([1, 2] if (iso and outcome == "commit") else []) + [4]
+    if src.twin:
+        want = want[:-1]
+    info = dict(isolation=iso, outcome=outcome, position_from=how, start=res.get("start"), delivered=res["got"], exc=res.get("exc"))
+    src.note(info)
+    src.check("deadlock" not in res and "exc" not in res, "consumer run failed: " + str(res.get("deadlock") or res.get("exc")), **info)
+    src.check(res.get("start") == want_start, f"start position at 'latest' is {res.get('start')}, expected {want_start} "
+              f"({'last stable offset' if iso else 'high watermark'})", **info)
+    src.check(res["got"] == want, f"delivered {res['got']}, expected {want}", **info)
+
+
 def harnesses(tier):
     q = tier == "quick"
     confs = [(1, 1, False), (2, 2, False), (3, 2, False)] if q else [(2, 2, True), (3, 3, False), (4, 2, False), (3, 2, True)]
     hs = []
+    hs.append(Harness(name="S2_latest_with_open_transaction", fn=s2_reset_to_latest, functions=[PartitionRecords._unpack_records], shape="S",
+                      symbolic_vars="choices: isolation level, how the open transaction ends, position from auto_offset_reset=latest or seek_to_end()",
+                      bounds={"log": "offsets 0..4, one open transaction"}, stubs=["SimConn broker model", "virtual-time loop", "log built by the reference codec"],
+                      max_seconds=120, twin_max_paths=50))
     for shape in (["txn_mixed"] if q else ["txn_mixed", "txn_open", "txn_same_pid", "v2_control"]):
         hs.append(Harness(
             name=f"S1_fetch_versions_{shape}", fn=s1_fetch_versions, params={"shape": shape},
